@@ -164,7 +164,7 @@ struct ProgressEngine : Engine
 	}
 	void run_unit(uint64_t u, Ctx& ctx) override
 	{
-		ctx.watchdog_s = 30;
+		ctx.watchdog_s = thorough ? 300 : 60;
 		if (!ctx.next_case()) return;
 		Pt const& p = pts[size_t(u)];
 		Case c; c.set("pt", (long long)u).set("thorough", thorough ? 1 : 0);
